@@ -68,6 +68,7 @@ def tasks(tier):
     ts += [("rename-merge", c) for c in ("two-to-one", "onto-existing", "onto-existing-reversed")]
     ts += [("dict-inserter", c) for c in ("reset", "reset-b-first", "enable", "enable-b-first")]
     ts += [("rename-swap", c) for c in ("swap", "chain")]
+    ts += [("dict-enable-memory", c) for c in ("a-first", "b-first")]
     return ts
 
 
@@ -495,6 +496,51 @@ def check_dict_inserter(kind):
     return runner.from_exploration(name, Exploration(name, body).run())
 
 
+def check_dict_enable_memory(order):
+    """EnableInserter given a dict naming TWO domains over a memory whose write port is in `a` and whose synchronous read
+    port is in `b`: the write happens iff port enable AND the control of `a`; the read register loads iff port enable AND the
+    control of `b` -- whichever order the dict lists the domains in."""
+    from amaranth.hdl import Signal, Module, ClockDomain, EnableInserter
+    from amaranth.lib.memory import Memory
+    name = f"dict-enable-memory({order})"
+    mem = Memory(shape=3, depth=2, init=[4, 5])
+    wp = mem.write_port(domain="a")
+    rp = mem.read_port(domain="b")
+    inner = Module()
+    inner.submodules.mem = mem
+    ca, cb = Signal(name="ctl_a"), Signal(name="ctl_b")
+    controls = {"a": ca, "b": cb} if order == "a-first" else {"b": cb, "a": ca}
+    top = Module()
+    cds = {n: ClockDomain(n) for n in ("a", "b")}
+    for cd in cds.values():
+        top.domains += cd
+    top.submodules.inner = EnableInserter(controls)(inner)
+    dsg = Design(top)
+    dsg.register(wp.addr, wp.data, wp.en, rp.addr, rp.en, ca, cb)
+
+    def body(path):
+        dsg.fresh(path, "m")
+        for cd in cds.values():
+            dsg.set(cd.clk, 0)
+            dsg.set(cd.rst, 0)
+        dsg.apply([], path, f"{name}::pre")
+        for dom in ("a", "b"):
+            old_rd = dsg.val(rp.data)
+            rows = list(dsg.mem(0).data)
+            wa, wd, we, ra, re_, va, vb = (dsg.val(s_) for s_ in (wp.addr, wp.data, wp.en, rp.addr, rp.en, ca, cb))
+            dsg.apply([(cds[dom].clk, 1)], path, f"{name}::{dom}-edge")
+            for i in range(2):
+                want = ite(And(we != 0, va != 0, wa == i), wd, rows[i]) if dom == "a" else rows[i]
+                path.prove(f"{name}::edge-of-{dom}::row{i}", to_sint(dsg.mem(0).data[i]) == to_sint(want))
+            if dom == "b":
+                want_rd = ite(And(re_ != 0, vb != 0), ite(ra == 0, rows[0], rows[1]), old_rd)
+            else:
+                want_rd = old_rd
+            path.prove(f"{name}::edge-of-{dom}::read-register", to_sint(dsg.val(rp.data)) == to_sint(want_rd))
+            dsg.apply([(cds[dom].clk, 0)], path, f"{name}::{dom}-fall")
+    return runner.from_exploration(name, Exploration(name, body).run())
+
+
 def check_rename_swap(case):
     """DomainRenamer maps whose targets are also sources (a swap {a: b, b: a}, a chain {a: b, b: c}): every statement, late-bound
     clock AND memory port moves exactly once -- what was in `a` is clocked by the new `b` only, what was in `b` by the new
@@ -629,6 +675,8 @@ def run_task(task):
         return check_dict_inserter(task[1])
     if k == "rename-swap":
         return check_rename_swap(task[1])
+    if k == "dict-enable-memory":
+        return check_dict_enable_memory(task[1])
     if k == "memory-two-domains":
         from . import c11
         cfg = c11.configs("thorough")[task[1]]
